@@ -202,12 +202,13 @@ where
     let before = p;
     let increment: T = kani::any();
     let size_delta: T = kani::any();
-    let a = IncreasePosition::try_new(&mut p, prices, increment, size_delta, None);
+    let mut pos0 = p;
+    let a = IncreasePosition::try_new(&mut pos0, prices, increment, size_delta, None);
     let Ok(a) = a else {
         core::mem::forget(a);
         return;
     };
-    let r = a.execute();
+    let r = a.verif_with_position(&mut p).execute();
     if let Ok(report) = &r {
         assert_c07_deltas(&before, &p);
         assert_c13_settle(&before, &p);
